@@ -5,5 +5,6 @@ pub mod bfs;
 pub mod model;
 pub mod fl;
 pub mod sp;
+pub mod it;
 pub use crate::core::*;
 pub use crate::rat::*;
